@@ -1141,6 +1141,23 @@ func (vc *VC) havocLocation(st *State, pre *State, loc string, env map[string]Va
 			return
 		}
 	}
+	// conditional form  T.f@rel(arg): only objects r with rel(arg, r) may change
+	condRel, condArg := "", ""
+	if at := strings.Index(loc, "@"); at >= 0 {
+		rest := loc[at+1:]
+		loc = loc[:at]
+		if i := strings.Index(rest, "("); i > 0 && strings.HasSuffix(rest, ")") {
+			condRel = rest[:i]
+			ae, err := parseSpecExpr(rest[i+1 : len(rest)-1])
+			if err != nil {
+				vc.unsupportedf(c.Pos(), "bad modifies condition %q", rest)
+				return
+			}
+			av := vc.specEval(pre, pre, ae, nil, env)
+			condArg = av.S
+			vc.declareFun("uf_"+condRel, []string{"Int", "Int"}, "Bool")
+		}
+	}
 	// split last component
 	k := strings.LastIndex(loc, ".")
 	if k < 0 {
@@ -1156,8 +1173,11 @@ func (vc *VC) havocLocation(st *State, pre *State, loc string, env map[string]Va
 				if field == "*" || field == f.Name() {
 					key := vc.heapKey(n, f.Name())
 					es := vc.sortOf(f.Type())
-					vc.heapGet(st, key, es)
+					before := vc.heapGet(st, key, es)
 					st.heap[key] = vc.fresh("H_"+key, "(Array Int "+es+")")
+					if condRel != "" {
+						vc.assume(st, fmt.Sprintf("(forall ((r Int)) (! (=> (not (uf_%s %s r)) (= (select %s r) (select %s r))) :pattern ((select %s r))))", condRel, condArg, st.heap[key], before, st.heap[key]))
+					}
 				}
 			}
 			return
